@@ -332,6 +332,22 @@ Proof.
   - intros [E1 E2]. split; [rewrite <- E1 | rewrite <- E2]; symmetry; apply unflat_flat; assumption.
   - intros [E1 E2]. split; [rewrite E1 | rewrite E2]; apply flat_unflat; assumption.
 Qed.
+(* the same read off the list-of-rows matrix, with the facts that make (r, c) <-> (j, k) <-> merge a bijection *)
+Theorem reshape_flatten_matrix_entry (a : @ndarr A) (ns : list N) (r c : nat) :
+  nd_ranges a = map sqr ns -> valid_arr a -> (N.of_nat r < prodN ns)%N -> (N.of_nat c < prodN ns)%N ->
+  nth c (nth r (flatten_to_matrix (reshape_F a) (prodN ns) (prodN ns)) []) zero
+  = aget a (merge ns (unflat ns (N.of_nat r)) (unflat ns (N.of_nat c)))
+  /\ valid_idx (nd_ranges a) (merge ns (unflat ns (N.of_nat r)) (unflat ns (N.of_nat c)))
+  /\ flat ns (unflat ns (N.of_nat r)) = N.of_nat r /\ flat ns (unflat ns (N.of_nat c)) = N.of_nat c.
+Proof.
+  intros Hrs Hva Hr Hc. split; [|split; [|split]].
+  - unfold flatten_to_matrix. cbv zeta.
+    rewrite (nth_map_Nseq _ (prodN ns) r []) by lia. rewrite (nth_map_Nseq _ (prodN ns) c zero) by lia.
+    exact (reshape_flatten_entry a ns (N.of_nat r) (N.of_nat c) Hrs Hva Hr Hc).
+  - rewrite Hrs. apply merge_valid; apply unflat_valid; assumption.
+  - apply flat_unflat. exact Hr.
+  - apply flat_unflat. exact Hc.
+Qed.
 (* the vector position r of flatten a (one column) is the array entry at the digits of r *)
 Theorem flatten_vector_entry (a : @ndarr A) (ns : list N) (r : N) :
   nd_ranges a = ns -> valid_arr a -> (r < prodN ns)%N ->
@@ -504,5 +520,38 @@ Proof.
 Qed.
 
 End System.
+
+(* ---------------------------------------------------------------------------------------------- *)
+(* the instance of the model: FitModel.Farr / Rarr / fit_system *)
+Definition basis_of (d : dimspec) : list (list K) := bsplinebasis (ds_knots d) (ds_coords d) (ds_order d).
+Definition ncoords (d : @dimspec A) : nat := length (ds_coords d).
+
+Lemma basis_of_wf (d : dimspec) : wf_basis dimspec basis_of ds_nsplines ncoords d.
+Proof.
+  unfold wf_basis, basis_of, bsplinebasis, ds_nsplines, ncoords. split.
+  - unfold rows_len. apply Forall_map. apply Forall_forall. intros x _. cbn beta. rewrite map_length, seq_length. reflexivity.
+  - apply map_length.
+Qed.
+
+Theorem glam_is_kron (dims : list dimspec) (smoothing : list K) (porders : list nat) (data : list (list N * K * K)) :
+  Forall (fun e => valid_idx (map (fun d => N.of_nat (length (ds_coords d))) dims) (fst (fst e))) data ->
+  let n := fold_right Nat.mul 1%nat (map ds_nsplines dims) in
+  let bases := map (fun d => bsplinebasis (ds_knots d) (ds_coords d) (ds_order d)) dims in
+  let E := map (fun e => (snd e, design_row bases (fst (fst e)), snd (fst e))) data in
+  flatten_to_matrix (reshape_F (Farr dims data)) (N.of_nat n) (N.of_nat n) = nmat n E
+  /\ map (fun row => nth 0 row zero) (flatten_to_matrix (Rarr dims data) (N.of_nat n) 1%N) = nrhs n E
+  /\ fit_system dims smoothing porders data = (madd (nmat n E) (penalty_matrix dims smoothing porders), nrhs n E)
+  /\ wf_rows n E.
+Proof.
+  intros Hdata n bases E.
+  assert (Hwf : Forall (wf_basis dimspec basis_of ds_nsplines ncoords) dims) by (apply Forall_forall; intros d _; apply basis_of_wf).
+  pose proof (glam_F_is_BtWB dimspec basis_of ds_nsplines ncoords dims data Hwf Hdata) as HF.
+  pose proof (glam_R_is_BtWz dimspec basis_of ds_nsplines ncoords dims data Hwf Hdata) as HR.
+  change (flatten_to_matrix (reshape_F (Farr dims data)) (N.of_nat n) (N.of_nat n) = nmat n E) in HF.
+  change (map (fun row => nth 0 row zero) (flatten_to_matrix (Rarr dims data) (N.of_nat n) 1%N) = nrhs n E) in HR.
+  split; [exact HF|]. split; [exact HR|]. split.
+  - unfold fit_system. cbv zeta. fold n. rewrite HF, HR. reflexivity.
+  - exact (Etriples_wf dimspec basis_of ds_nsplines ncoords dims data Hwf Hdata).
+Qed.
 
 End Kron.
